@@ -176,6 +176,11 @@ def gen(rng, tier):
                 vals = src_values(rng, ty, bits)
                 for f in PF:
                     out.append("%s %d Z:%x %s" % (f, bits, ty, zt(rng.choice(vals))))
+                # the wide source types: every boundary value of the (type, BITS) pair, not a sample
+                # (a slip at one exact value, e.g. u64::MAX given as u128 at BITS = 64, must be seen)
+                if TYPES[ty][0] >= 64 and _ == 0:
+                    for v in vals:
+                        out.append("%s %d Z:%x %s" % (PF[0], bits, ty, zt(v)))
             # Uint -> primitive
             for ty, (w, s) in TYPES.items():
                 vals = uint_values(rng, bits, [w, w - 1, 64, 63])
